@@ -419,6 +419,18 @@ def check_scaling(R, compose, A, ns, nm, coefs, shape, prefix):
         want = (A @ (s * coefs).ravel()).reshape(shape)
         cond = (np.abs(A) @ np.abs(s * coefs).ravel()).reshape(shape)
         R.expect_close(compose(s * coefs), want, 1e3 * EPS * cond, f'{prefix}:opd-scaling', f'compose_opd({s:g} c) vs {s:g} x sum_k c_k compose_opd(e_k)')
+    # history on ONE coefficient array object (a poke loop): the array is rewritten in place between calls, first walking the
+    # (segment, mode) pairs forwards, then backwards; every answer must be the column of the operator matrix for the CURRENT content
+    # (an implementation that remembers the previous coefficients by reference, or per-segment tiles keyed on them, answers for the old)
+    c = np.zeros((ns, nm))
+    seq = [(k, k % nm) for k in range(ns)]
+    for k, m in seq + seq[::-1]:
+        c[...] = 0.0
+        c[k, m] = 1.0
+        got = compose(c)
+        if not R.expect_equal(got, A[:, k * nm + m].reshape(shape), f'{prefix}:opd-reused-coefficient-array',
+                              f'compose_opd(c) with the same array object c rewritten in place to e[segment {k}, mode {m}] vs compose_opd of a fresh e'):
+            break
     # segments alternately O(1), 1e-9, 1e-12, exactly 0
     per = np.array([1.0, 1e-9, 1e-12, 0.0])[np.arange(ns) % 4][:, None]
     mixed = coefs * per
